@@ -477,29 +477,6 @@ for _tag in ("hmtx", "vmtx"):
 # maxp: numGlyphs is the length of the glyph order; (TrueType) maxComponentElements / maxComponentDepth are the maxima
 # of the per-glyph component counts / component-tree heights.
 
-from pyvc import models as _models  # noqa: E402
-
-
-def _max_default(ex, st, args, kwargs, node):
-    """builtins.max over a generator expression / with default=: max(<gen>) == max([<gen>]); max(c, default=d) == d if c is
-    empty else max(c)  [python builtin semantics; the engine's own model covers neither form]"""
-    args = [_models.materialize(ex, a) for a in args]
-    base = _models.BUILTIN_MODELS["builtins.max"].model
-    if "default" not in kwargs:
-        return base(ex, st, args, {}, node)
-    (v,) = args
-    info = ex.iter_info(v, st, node)
-    if info.kind != "indexed":
-        raise Unsupported("max(default=) over a non-sequence", node)
-    i, w = z3.Int(fresh_name("mi")), z3.Int(fresh_name("mw"))
-    m = fresh(INT, "max")
-    d = lift(kwargs["default"], INT)
-    st.assume(z3.Implies(info.n > 0, z3.And(w >= 0, w < info.n, lift(info.item(w), INT) == m)))
-    st.assume(z3.ForAll([i], z3.Implies(z3.And(i >= 0, i < info.n), m >= lift(info.item(i), INT))))
-    st.assume(z3.Implies(info.n <= 0, m == d))
-    return Val(INT, m)
-
-
 _RT_GS = [None]
 
 
@@ -612,7 +589,6 @@ contract(
     "ufo2ft.outlineCompiler:OutlineTTFCompiler.setupTable_maxp",
     props=["C04"],
     params={"self": Ref("OutlineCompilerT")},
-    models={"builtins.max": _max_default},
     requires=[
         "'maxp' in self.tables",
         # '.notdef' is always in the glyph set (makeMissingRequiredGlyphs, contract under C03): max() of an empty sequence raises
@@ -775,7 +751,7 @@ contract(
     globals={"standardGlyphOrder": list(_STD)},
     # compile() creates the TTFont and calls every setupTable_* once: there is no 'post' table yet (otherwise the override would
     # rewrite a table that the base method did not make)
-    requires=["self.otf.get('post') is None"],
+    requires=["self.otf.get('post') is None", "distinct(self.glyphOrder)"],  # (glyph order: each name once — proved for makeOfficialGlyphOrder under C03)
     modifies=["TTFont.tbl:post"],
     ensures={
         "made-iff-requested": "implies('post' in self.tables, self.otf.get('post') is not None) and implies('post' not in self.tables, self.otf.get('post') == old(self.otf.get('post')))",
@@ -786,10 +762,17 @@ contract(
         # of the list is only checked at run time, see bounded_ensures)
         "extra-names-only": f"implies('post' in self.tables, all(any(self.glyphOrder[k] == g for k in range(len(self.glyphOrder))) and g not in standardGlyphOrder for g in {_PT}.extraNames))",
         "extra-names-all": f"implies('post' in self.tables, all(implies(g not in standardGlyphOrder, g in {_PT}.extraNames) for g in self.glyphOrder))",
+        # ... in the ORDER of the glyph order: two names of the list stand in the glyph order in the same relative order
+        "extra-names-in-order": f"implies('post' in self.tables, all(all(all(all(implies(j < k and self.glyphOrder[p] == {_PT}.extraNames[j] and self.glyphOrder[q] == {_PT}.extraNames[k], p < q)"
+        f" for q in range(len(self.glyphOrder))) for p in range(len(self.glyphOrder))) for k in range(len({_PT}.extraNames))) for j in range(len({_PT}.extraNames))))",
+        # ... each once (the glyph order has no duplicates: makeOfficialGlyphOrder, `no-name-twice` under C03)
+        "extra-names-no-name-twice": f"implies('post' in self.tables, distinct({_PT}.extraNames))",
     },
+    comp_positions=True,
     bounded_ensures={
-        # BOUNDED (run time only): the engine's model of a filtered list comprehension states membership, not order (notes/C04.requests.md #2)
-        "extra-names-in-order": f"implies('post' in self.tables, {_PT}.extraNames == [g for g in self.glyphOrder if g not in standardGlyphOrder])",
+        # run time only: the same fact as ONE list equality (two comprehension results are equal only by induction, which the solvers
+        # do not do; the proved clauses extra-names-only / -all / -in-order / no-name-twice say the same for a duplicate-free glyph order)
+        "extra-names-list": f"implies('post' in self.tables, {_PT}.extraNames == [g for g in self.glyphOrder if g not in standardGlyphOrder])",
     },
     canaries={"no-extra-names": f"implies('post' in self.tables, len({_PT}.extraNames) == 0)"},
 )
@@ -1057,3 +1040,114 @@ contract(
                     lambda d: {"self": (lambda c: (c.glyphBoundingBoxes if d.get("cached") else None, c)[1])(rtlib.outline_compiler(d, "ttf"))},
                     call=lambda fn, a: fn.fget(a["self"])),
 )
+
+
+# =====================================================================================================
+# OutlineOTFCompiler.makeGlyphsBoundingBoxes as a whole: one entry per charstring; the box is the charstring's exact bounds with the two
+# minima rounded by toInt(.., floor) and the two maxima by toInt(.., ceil) (tolerance = self.roundTolerance); None when the charstring has
+# no bounds or the rounded box is (0, 0, 0, 0).
+_RT_CS = [None]
+_R4 = Tuple(REAL, REAL, REAL, REAL)
+
+
+@specfn(Opt(_R4), opaque=True, cs=Ref("CharStringB"))
+def cff_bounds(cs):
+    """exact bounds of a compiled charstring as fontTools computes them (T2CharString.calcBounds; None for an empty outline)"""
+    b = getattr(cs, "_obj", cs).calcBounds(_RT_CS[0])
+    return None if b is None else tuple(b)
+
+
+@specfn(INT, v=REAL, tol=REAL, up=BOOL)
+def c04_toint(v, tol, up):
+    """the rounding of one bound: otRound when everything is rounded (tol >= 0.5) or rounding moves it by at most tol, else outward"""
+    return c04_otr(v) if (tol >= 0.5 or abs(c04_otr(v) - v) <= tol) else (-c04_floor(-v) if up else c04_floor(v))
+
+
+@specfn(INT, v=REAL)
+def c04_floor(v):
+    import math
+
+    return math.floor(v)
+
+
+def _calcBounds(ex, st, self, args, kwargs, node):
+    """T2CharString.calcBounds(glyphSet): a function of the charstring (pure; the glyph set is the unchanged dict of all charstrings)"""
+    return Val(Opt(_R4), ex.spec_decl(SPECFNS["cff_bounds"])(lift(self)))
+
+
+cls("CharStringB", methods={"calcBounds": _calcBounds}, notes="compiled T2CharString (bounds only)")
+cls("OutlineCompilerC", fields={"compiled": Dict(STR, Ref("CharStringB")), "roundTolerance": REAL},
+    methods={"getCompiledGlyphs": _getCompiledGlyphs}, views={"compiled": lambda o: o.getCompiledGlyphs()},
+    repo="ufo2ft.outlineCompiler:OutlineOTFCompiler", notes="OTF compiler as makeGlyphsBoundingBoxes sees it (compiled charstrings, rounding tolerance)")
+
+_CC = "self.compiled"
+
+
+def _cbox(g):
+    """clause text: the four rounded bounds of glyph g"""
+    b = f"cff_bounds({_CC}[{g}])"
+    return [f"c04_toint({b}[{k}], self.roundTolerance, {k >= 2})" for k in range(4)]
+
+
+def _cff_clauses(d, g, quant):
+    allzero = " and ".join(f"{t} == 0" for t in _cbox(g))
+    out = {"none-iff-no-bounds-or-all-zero": f"all(iff({d}[{g}] is None, cff_bounds({_CC}[{g}]) is None or ({allzero})) for {quant})"}
+    for k, sd in enumerate(_SIDES):
+        out[f"box-{sd}"] = f"all(implies({d}[{g}] is not None, {d}[{g}].{sd} == {_cbox(g)[k]}) for {quant})"
+    return out
+
+
+_OTF_MGBB_READY = False  # flipped when the engine narrows the None-branch of `if bounds is not None:` (notes/C04.requests.md #5)
+contract(
+    "ufo2ft.outlineCompiler:OutlineOTFCompiler.makeGlyphsBoundingBoxes",
+    props=["C04"] if _OTF_MGBB_READY else [],
+    params={"self": Ref("OutlineCompilerC")},
+    returns=Dict(STR, Opt(lib.BBOX)),
+    models={"ufo2ft.outlineCompiler.BoundingBox": _bbox_ctor},
+    requires=[f"len({_CC}) >= 0"],
+    modifies=[],
+    ensures={
+        "one-entry-per-glyph": f"all(g in result for g in {_CC}) and all(g in {_CC} for g in result)",
+        **_cff_clauses("result", "g", f"g in {_CC}"),
+    },
+    canaries={"all-empty": f"all(result[g] is None for g in {_CC})"},
+    locals={"glyphBoxes": Dict(STR, Opt(lib.BBOX))},
+    loops={
+        "for (name, cs) in charStrings.items()": Loop(
+            index="i", seq="K",
+            invariants={
+                "keys": "all(K[a] in glyphBoxes for a in range(i))",
+                "only": f"all(g in {_CC} for g in glyphBoxes)",
+                **_cff_clauses("glyphBoxes", "K[a]", "a in range(i)"),
+            },
+        )
+    },
+)
+
+
+def _cff_cases(rng, n):
+    out = []
+    for k in range(n):
+        g = rtlib.rand_glyphs(rng)
+        for v in g.values():
+            if v.get("box") and rng.random() < 0.6:
+                x0, y0, x1, y1 = v["box"]
+                v["contours"] = [[(x0 + rng.choice([0, 0.25, 0.5, 0.75]), y0 + rng.choice([0, 0.4, 0.6]), "line"), (x1 + rng.choice([0, 0.3, 0.5]), y0, "line"), (x1, y1 + rng.choice([0, 0.2, 0.5, 0.8]), "line")]]
+                v.pop("box")
+        out.append({"glyphs": g, "rt": [None, 0, 0.25, 0.5, 1, 0.1][k % 6]})
+    return out
+
+
+def _cff_build(d):
+    from fontTools.ttLib import TTFont
+
+    from ufo2ft.outlineCompiler import OutlineOTFCompiler
+
+    comp = OutlineOTFCompiler(rtlib.build_ufo(d), roundTolerance=d["rt"])
+    comp.otf = TTFont(sfntVersion=comp.sfntVersion)
+    comp.otf.setGlyphOrder(comp.glyphOrder)
+    _RT_CS[0] = comp.getCompiledGlyphs()
+    return {"self": comp}
+
+
+CONTRACTS["ufo2ft.outlineCompiler:OutlineOTFCompiler.makeGlyphsBoundingBoxes"].runtime = Runtime(_cff_cases, _cff_build, call=lambda fn, a: fn(a["self"]))
